@@ -284,9 +284,16 @@ def h_leadsheet(c):
 
   inv('initial')
   if op == 'append':
+    # an out-of-range melody event is rejected and must leave nothing behind
+    bad = c.choice('bad', [128, -3])
+    res, err = c.raises(sheet.append, (bad, 'Am'))
+    c.check(isinstance(err, ValueError), 'invalid melody event rejected')
+    c.check(len(sheet) == L, 'a rejected append adds nothing')
+    inv('after a rejected append')
     sheet.append((c.int('new', -2, 127), 'F'))
     c.check(len(sheet) == L + 1, 'append: one more event')
     inv('append')
+    c.check(sheet[L][1] == 'F', 'the appended chord is the one supplied')
   elif op == 'set_length':
     n = c.int('n', 0, L + 2)
     sheet.set_length(n)
